@@ -63,6 +63,10 @@ CHECKS = {
             "TLC enumerates the product of presentations (container kind x index-label scheme per argument, Present.tla) with the positional meaning and the wrong label-aligned meaning (discriminating flag); each presentation is applied to TLC-simulated 8-row datasets and run through MetricFrame, fairness metrics, moments, EG, GridSearch, ThresholdOptimizer against the canonical run",
             "results must be identical to the all-list run (1e-12 for metrics, exact for estimators incl. _pmf_predict / predict with a fixed seed); joint row permutations with surviving original labels and order-reversing group renamings on top; the evidence counts the discriminating presentations replayed (containers whose labels would change the data if aligned on)",
             "quick samples 1500 of 20736 four-argument and 260 of 1728 three-argument presentations (full product in thorough); X only as ndarray/DataFrame", "5/C12"),
+    "C15": (["CorrRem.tla", "Rat.tla"],
+            "TLC exhaustive enumeration of small integer matrices (CorrRem.tla: exact least-squares residual with rank cases, alpha blend, learned affine map; laws ZeroCov, TransformIsFitTransform) + fit_transform/transform replay of every state; direct property checks on seeded real-valued matrices",
+            "every matrix (1..2 sensitive + 1..2 other columns, constant and collinear sensitive columns included) is replayed as ndarray (positional ids) and DataFrame (named ids) with shuffled rows, a seeded column layout, alpha in {0, 1/2, 1} and a new-row transform against exact rationals; on 300 (quick) / 4000 real matrices with 1..4 sensitive columns zero covariance, the alpha formula, affinity and training-consistency of transform are checked on the code's output",
+            "exact spec covers K <= 2 sensitive columns; K = 3, 4 only by the real-valued direct checks", "5/C15"),
 }
 
 PENDING_REASON = "check under construction in this session (DESIGN.md section 5 describes the planned TLA+ spec and binding); not yet claimed"
